@@ -316,7 +316,7 @@ class CoapAeadLog:
 def run_c06_coap(case, R):
     ops = case["ops"]
     names = [o[0] for o in ops]
-    faulty = {"replay", "replay-deep", "skip", "corrupt", "no-response", "network-error", "event-replay", "event-skip", "cancel", "event-bad", "par2"}
+    faulty = {"replay", "replay-deep", "skip", "corrupt", "no-response", "network-error", "event-replay", "event-skip", "cancel", "event-bad", "par2", "error-empty"}
     idx = [i for i, n in enumerate(names) if n in faulty]
     R.nt(bool(idx) and any(n in ("get", "put", "event", "event-replay") for n in names[idx[0] + 1:]))
     for n in set(names):
@@ -336,6 +336,7 @@ def run_c06_coap(case, R):
         try:
             await p.list_accessories_and_characteristics()
             nresp = [0]
+            overlapped = [False]
             for i, op in enumerate(ops):
                 op = list(op) + [0, 0]
                 name = op[0]
@@ -350,11 +351,13 @@ def run_c06_coap(case, R):
                         continue
                     next_fault[0] = {"replay": 1 + op[1] % (len(sent_now) - 7)}
                     continue
-                if name in ("skip", "corrupt", "no-response", "network-error"):
+                if name in ("skip", "corrupt", "no-response", "network-error", "error-empty"):
                     next_fault[0] = {"skip": {"skip": 1 + op[1] % 8}, "corrupt": {"corrupt": True}, "no-response": {"action": "no-response"},
-                                     "network-error": {"action": "network-error"}}[name]
+                                     "network-error": {"action": "network-error"},
+                                     "error-empty": {"action": "error-empty", "code": ["SERVICE_UNAVAILABLE", "BAD_REQUEST", "INTERNAL_SERVER_ERROR", "REQUEST_ENTITY_TOO_LARGE"][op[1] % 4]}}[name]
                     continue
                 if name == "par2":
+                    overlapped[0] = True
                     # two operations overlap in time; if both requests are ever in flight together, the reply to the first takes longer
                     if not p.is_connected:
                         continue
@@ -416,7 +419,9 @@ def run_c06_coap(case, R):
                         if clause == "C06.nonce-reused":
                             # the zero reset sets the send counter to 0 whether or not the response then decrypts at 0
                             zero_tried = any(len(a[1]) > 1 and int.from_bytes(a[1][-1][0][4:], "little") == 0 for a in mon.calls)
-                            path = "zero-reset" if "zero-reset" in mon.entry_path.values() or zero_tried else "other"
+                            # (a zero attempt that fails ends the session - unless another operation is in flight on it, the overlap the finding
+                            # describes; in a sequential history a nonce reused after a *failed* zero attempt is something else)
+                            path = "zero-reset" if "zero-reset" in mon.entry_path.values() or (zero_tried and overlapped[0]) else "other"
                         else:
                             path = mon.entry_path.get(self.entry, "unknown")
                             # a later duplicate of an acceptance that was itself a recovery: attribute it to the first offending path
@@ -438,7 +443,7 @@ def run_c06_coap(case, R):
 
 
 COAP_ALPHA = [("get", 0), ("put", 1, 2), ("replay", 1), ("replay", 7), ("replay-deep", 0), ("skip", 1), ("skip", 6), ("corrupt",), ("no-response",), ("event",), ("event-replay", 0),
-              ("event-skip", 0), ("cancel", 0, 5), ("reconnect",), ("event-bad", 11, 3), ("par2", 0)]
+              ("event-skip", 0), ("cancel", 0, 5), ("reconnect",), ("event-bad", 11, 3), ("par2", 0), ("error-empty", 0)]
 
 
 def enum_c06_coap(tier):
@@ -458,7 +463,7 @@ def c06_coap_histories(draw):
     ops = [["get", 0]] * draw(st.sampled_from([0, 0, 8, 12]))
     for _ in range(draw(st.integers(3, 30))):
         name = draw(st.sampled_from(["get", "get", "put", "put", "replay", "replay-deep", "replay-deep", "skip", "corrupt", "no-response", "network-error", "event", "event",
-                                     "event-replay", "event-skip", "cancel", "reconnect", "par2"]))
+                                     "event-replay", "event-skip", "cancel", "reconnect", "par2", "error-empty"]))
         if name == "event" and draw(st.integers(0, 3)) == 0:
             ops.append(["event-bad", draw(st.sampled_from([10, 11, 12, 14, 15, 99])), draw(st.sampled_from([0, 1, 3, 9]))])
             continue
@@ -728,3 +733,83 @@ C17_COAP_INITIAL_LAYERS = [
           space="services of 1..24 characteristics x {all readable, every third write-only, every fourth answering with status 6}", min_nontrivial=40),
     Layer("coap-initial-read-gen", run_c17_coap_initial, strategy=c17_coap_initial_cases, n={"quick": 300, "thorough": 6000}),
 ]
+
+
+# ---------------------------------------------------------------- C08 on CoAP: an unanswered request ends with the library's error, the next one gets its own answer
+def run_c08_coap(case, R):
+    ops = case["ops"]
+    R.nt(any(o[0] in ("no-response", "network-error", "error-empty") for o in ops))
+    R.cls("c08-coap")
+
+    async def main(loop):
+        from aiohomekit.exceptions import HomeKitException
+        w = CoapWorld(loop, k=case.get("k", 0))
+        next_fault = [None]
+
+        def fault(acc, pdus):
+            f, next_fault[0] = next_fault[0], None
+            return f
+        w.acc.fault = fault
+        p = w.pairing
+        try:
+            await p.list_accessories_and_characteristics()
+            val = 0
+            failed_before = False
+            for i, op in enumerate(ops):
+                name = op[0]
+                what = f"CoAP op {i} {op} of {ops}"
+                if name in ("no-response", "network-error", "error-empty"):
+                    next_fault[0] = {"action": name}
+                    continue
+                val += 1
+                armed = next_fault[0] is not None
+                t0 = loop.time()
+                try:
+                    if name == "put":
+                        r = await asyncio.wait_for(p.put_characteristics([(1, 11, val % 200)]), 120)
+                    else:
+                        r = await asyncio.wait_for(p.get_characteristics([(1, 11), (1, 10)]), 120)
+                except HomeKitException:
+                    if not armed and not failed_before:
+                        R.fail("C08.wrong-error", f"{what}: the accessory is healthy, the request failed", exc="HomeKitException")
+                        return
+                    failed_before = armed          # the request after a failed one may still find the session gone; the one after that must not
+                    next_fault[0] = None
+                    continue
+                except asyncio.TimeoutError:
+                    if loop.time() - t0 >= 119:
+                        R.fail("C08.request-hangs", f"{what}: no outcome within 120 s", how="coap")
+                    else:
+                        R.fail("C08.wrong-error", f"{what}: ended with a bare TimeoutError after {loop.time() - t0:.1f} s", exc="TimeoutError")
+                    return
+                except Exception as e:  # noqa: BLE001
+                    R.fail("C08.wrong-error", f"{what}: {type(e).__name__}: {e}", exc=type(e).__name__)
+                    return
+                failed_before = False
+                if armed and next_fault[0] is None:
+                    R.fail("C08.wrong-response", f"{what}: the accessory did not answer this request, yet it completed with {r!r:.120}", got="other-request")
+                    return
+                if name == "put":
+                    if r or w.acc.values[11] != bytes([val % 200]):
+                        R.fail("C08.wrong-response", f"{what}: write reported {r!r}; the accessory holds {w.acc.values[11]!r}", got="other-request")
+                        return
+                else:
+                    exp = {(1, 11): {"value": w.acc.values[11][0]}, (1, 10): {"value": bool(w.acc.values[10][0])}}
+                    if r != exp:
+                        R.fail("C08.wrong-response", f"{what}: read returned {r!r}, expected {exp!r}", got="other-request")
+                        return
+            await p.shutdown()
+        finally:
+            w.restore()
+    vtime.run(main)
+
+
+def enum_c08_coap(tier):
+    for f in ("no-response", "network-error", "error-empty"):
+        yield {"ops": [["get"], [f], ["get"], ["put"], ["get"], ["put"]]}
+        yield {"ops": [["put"], ["get"], [f], ["put"], ["get"], [f], ["get"], ["put"], ["get"]]}
+        yield {"ops": [[f], ["put"], ["put"], ["get"]], "k": 3}
+
+
+C08_COAP_LAYERS = [Layer("coap-unanswered-requests", run_c08_coap, enumerate=enum_c08_coap, exhaustive=True,
+                         space="3 ways a request goes unanswered (silence, network error, bare error code) x 3 histories of reads and writes", min_nontrivial=9)]
